@@ -118,6 +118,18 @@ package engine
 //@   ensures [newer_first] result == (len(fname(dirs[i])) > len(fname(dirs[j])) || (len(fname(dirs[i])) == len(fname(dirs[j])) && fname(dirs[i]) > fname(dirs[j])))
 
 
+// Serial replay order (lemma over the contracts of the log). Proved: record q is appended to partition q mod N
+// (writeBinary above). TRUSTED descriptions of code outside the subset (goroutines/channels): WAL.Switch starts a new
+// file in every partition and leaves writeReq unchanged; consumeRecordSerial delivers, round after round, the next
+// unread record of partitions 0..N-1; after a flush the pre-switch files are removed. Then, for a log switched at
+// sequence b, partition p's remaining stream starts at fst(b,N,p) (the smallest sequence >= b congruent to p), and
+// record q is delivered at position pos(b,N,q). The property needs delivery order == acknowledgement order.
+//@ spec func fst(b int, n int, p int) int = b + emod((p - emod(b, n)) + n, n)
+//@ spec func pos(b int, n int, q int) int = ediv(q - fst(b, n, emod(q, n)), n) * n + emod(q, n)
+//@ lemma wal_replay_order(b int, n int, q1 int, q2 int)
+//@   requires n >= 1 && b >= 0 && b <= q1 && q1 < q2
+//@   ensures [ack_order_preserved] pos(b, n, q1) < pos(b, n, q2)
+
 // Recovery reads a log record as header + body. A record is handed to the replay callback only if its body was
 // read IN FULL (io.ReadFull reports err == nil exactly when it filled the buffer; io.EOF means "no byte at all",
 // io.ErrUnexpectedEOF "some") and decompressed without error: a record cut short by a crash - also one cut right
